@@ -139,7 +139,7 @@ def run(ctx):
                 dec_info.append((line, n_acc, out_bytes, dt))
     dans = C.harness(dec_lines, timeout=1200)
     # the model decodes the small files only (a 2^24-1 chunk is an implementation-only case)
-    small = [k for k, i in enumerate(dec_info) if len(i[2]) < 400000]
+    small = [k for k, i in enumerate(dec_info) if len(i[2]) < 400000 and sum(len(ch) for ch in i[1]) < 200000]
     mres = dict(zip(small, C.driver(["dec %s %s" % (dec_info[k][3], dec_info[k][2]) for k in small], timeout=600))) if ctx.model_ok else {}
     mans = [mres.get(k) for k in range(len(dec_info))]
     for (line, chunks, hx, dt), a, m in zip(dec_info, dans, mans):
